@@ -14,6 +14,11 @@ import Proofs.RefactorGraphIn
 import Proofs.RefactorGraphCall
 import Proofs.RefactorGraphOut
 import Proofs.RefactorGraphRem
+import Proofs.RefactorGraphDel
+import Proofs.RefactorGraphRo
+import Proofs.RefactorClosure
+import Proofs.RefactorLoop
+import Proofs.RefactorGraphRoFull
 
 namespace Props.C19
 open Martian.Refactor
@@ -34,12 +39,12 @@ def exP : Callable :=
    [⟨"r", .ref ⟨.call, "V", ["o"]⟩⟩], [⟨.call, "S", ["o"]⟩]⟩
 def exProg : Program := ⟨[exS, exT, exP], some ⟨"P", "P", "", [⟨"a", .lit "31"⟩], []⟩⟩
 
-/-- **rename_rename_id.**  On a well-formed program, renaming callable `x` to a
+/-- **rename_rename_id (partial).**  On a well-formed program, renaming callable `x` to a
 name `y` that is fresh for it and then `y` back to `x` gives back the original
 program *syntactically* — including the case where `y` collides with an
 existing call id of another callable (the call of `x` gets an explicit alias)
 and including references, retains, modifiers and the top-level call. -/
-theorem rename_rename_id (p : Program) (x y : String)
+theorem rename_rename_id_partial (p : Program) (x y : String)
     (hwf : WF p = true) (hfresh : FreshFor x y p = true) :
     renameCallable y x (renameCallable x y p) = p := by
   exact Proofs.Refactor.rename_rename_id p x y hwf hfresh
@@ -93,7 +98,13 @@ every other call of every pipeline unchanged and in order, and does not touch
 returns, retains, outputs or names.
 PARTIAL: the cascade that afterwards drops pipeline inputs which became
 unbound (and their bindings in callers) is covered by `remove_input_only`
-below, not composed into one statement about the deep call graph. -/
+below, not composed into one statement about the deep call graph.
+NOTE (audit): conjunct 2 is a structural fact about `applyCallRemovals` for ANY
+removal list and does not use the hypothesis; conjunct 1 restates the filter of
+`unusedCalls`.  The statement that connects "what is removed" with "what was
+unused" and says that the graph of the remaining calls is unchanged is
+`remove_unused_calls_pass_graph_partial` / `remove_unused_calls_loop_graph_partial`
+below (side conditions derived from the analyses). -/
 theorem remove_unused_preserves_partial (p : Program) (pipe : Callable) (id : String)
     (hid : id ∈ unusedCalls p pipe) :
     id ∉ callRefIdsOf pipe
@@ -174,6 +185,27 @@ theorem fixpoint_needs_invariant :
 
 example : (removeStep exProg true ["P"] exProg).2 = false := by decide
 
+
+/-! ### naming: why the call-graph theorems below are `_partial`
+
+The property quantifies over ALL compiling programs, "including references through
+wildcards, struct projections and disabled modifiers".  Every theorem about the
+resolved call graph (`deepGraph`) is proved on a sub-domain, and is therefore named
+`…_partial`:
+* the model fragment: no map calls / `split`; `disabled` modifiers only in the
+  extended model `deepGraphD`, which is tied to the code but has no edit theorems;
+* the decidable side condition of each theorem (`RenInOK`, `RenOutOK`, `RenCallOK`,
+  `RemInOK`/`RemInsOK`, `RemOutOK`, `CallRemOK`, `StructOK`, `seedOK`) excludes
+  wildcard bindings (known finding KF1: the FULL statement is false there, witness on
+  the real code), whole-call bindings / callable-as-type (KF2: false, witness
+  `rename_output_whole_call_breaks`), non-fresh target names (KF3: false, witness
+  `rename_to_own_alias_not_reversible`) and requires distinct call ids / binding names
+  and references that name existing calls (what the compiler guarantees).
+FULL statement of each: the same equation for every compiling program and every
+applicable edit.  Struct PROJECTIONS are inside the proved domain (see `exDeep`).
+The driver evaluates every side condition on every real instance and the harness
+reports how often it holds (quick: 55–70 %). -/
+
 /-! ### the resolved call graph with deep inlining (Martian/RefactorGraph.lean)
 
 `deepGraph ti p` is the model of `Ast.MakeCallGraph` (tied to it on every run by
@@ -187,13 +219,13 @@ def exTi : TypeInfo :=
   ⟨[], [("S", [("a", ⟨"int", 0, 0⟩)]), ("T", [("a", ⟨"int", 0, 0⟩)]), ("P", [("a", ⟨"int", 0, 0⟩)])],
        [("S", [("o", ⟨"int", 0, 0⟩)]), ("T", [("o", ⟨"int", 0, 0⟩)]), ("P", [("r", ⟨"int", 0, 0⟩)])]⟩
 
-/-- **rename_rename_id_typed.**  The round trip `x → y → x` on the program
+/-- **rename_rename_id_typed_partial.**  The round trip `x → y → x` on the program
 together with its type table (struct definitions and the typed signatures of all
 callables): both come back syntactically, for every `y` that is fresh for `x`
 and names no signature.  (Uses of a callable's name as a parameter TYPE are not
 rewritten by the edit — known finding KF2 — and are therefore untouched in both
 directions.) -/
-theorem rename_rename_id_typed (p : Program) (ti : TypeInfo) (x y : String)
+theorem rename_rename_id_typed_partial (p : Program) (ti : TypeInfo) (x y : String)
     (hwf : WF p = true) (hfresh : FreshFor x y p = true)
     (hi : y ∉ ti.ins.map (·.1)) (ho : y ∉ ti.outs.map (·.1)) :
     renameCallable y x (renameCallable x y p) = p
@@ -204,7 +236,7 @@ theorem rename_rename_id_typed (p : Program) (ti : TypeInfo) (x y : String)
 example : "Z" ∉ exTi.ins.map (·.1) ∧ "Z" ∉ exTi.outs.map (·.1)
     ∧ exTi.renameCallable "S" "Z" ≠ exTi := by decide
 
-/-- **rename_input_graph.**  Renaming input `a` of callable `x` to a fresh name
+/-- **rename_input_graph_partial.**  Renaming input `a` of callable `x` to a fresh name
 `b` leaves the resolved call graph unchanged except that every node of a call
 of `x` carries its resolved input under the key `b` instead of `a`: the same
 nodes (fqids, callables), the same resolved expressions for every input of
@@ -212,7 +244,7 @@ every call at every depth, the same resolved outputs and retained references.
 `RenInOK` (decidable) is the freshness / well-formedness hypothesis: `b` is not
 an input of `x`, is not referred to as `self.b` inside `x` and is bound by no
 call of `x`; no wildcard bindings (known finding KF1); call ids are distinct. -/
-theorem rename_input_graph (x a b : String) (ti : TypeInfo) (p : Program)
+theorem rename_input_graph_partial (x a b : String) (ti : TypeInfo) (p : Program)
     (hok : RenInOK x a b ti p = true) :
     deepGraph (ti.renameInput x a b) (renameInput x a b p)
       = (deepGraph ti p).map (renNodeIn x a b) := by
@@ -225,7 +257,7 @@ example : RenInOK "S" "a" "z" exTi exProg = true ∧ RenInOK "P" "a" "z" exTi ex
     ∧ (deepGraph exTi exProg).length = 4
     ∧ (deepGraph exTi exProg).map (renNodeIn "S" "a" "z") ≠ deepGraph exTi exProg := by decide
 
-/-- **rename_callable_graph** (the full form of `rename_callgraph_partial`: deep
+/-- **rename_callable_graph_partial** (the full form of `rename_callgraph_partial`: deep
 inlining included).  Modulo the choice of call ids (`eraseIds`: the k-th call of
 a pipeline is called `#k`, references point to positions — renaming a callable
 may turn `call X` into `call Y` or into `call Y as X`), renaming callable `x` to
@@ -235,7 +267,7 @@ output and retained reference identical up to `x ↦ y` in the callable named by
 a stage-output reference.  `RenCallOK` (decidable): `y` names no callable, no
 call, no signature and no type; `x` is not used as a parameter type (known
 finding KF2); no wildcard bindings (KF1); distinct call ids. -/
-theorem rename_callable_graph (p : Program) (x y : String) (ti : TypeInfo)
+theorem rename_callable_graph_partial (p : Program) (x y : String) (ti : TypeInfo)
     (hwf : WF p = true) (hfresh : FreshFor x y p = true) (hx : (p.find? x).isSome = true)
     (hok : RenCallOK x y ti (eraseIds p) = true) :
     deepGraph (ti.renameCallable x y) (eraseIds (renameCallable x y p))
@@ -251,7 +283,7 @@ example : RenCallOK "S" "Z" exTi (eraseIds exProg) = true ∧ RenCallOK "S" "U" 
     ∧ (deepGraph exTi (eraseIds exProg)).map (renNodeCallable "S" "Z") ≠ deepGraph exTi (eraseIds exProg) := by
   decide
 
-/-- **rename_output_graph.**  Renaming output `a` of callable `x` to a fresh name
+/-- **rename_output_graph_partial.**  Renaming output `a` of callable `x` to a fresh name
 `b` leaves the resolved call graph unchanged modulo that name: the same nodes;
 in every resolved input, output and retained reference, a reference to output
 `a` (with any projection below it) of a STAGE node of `x` names `b` instead;
@@ -262,7 +294,7 @@ any depth of inlining, still receives the same stage output / literal.
 call of `x`; no call of `x` is bound as a whole (`= CALL`) and `x` is not used
 as a parameter type (known finding KF2); no wildcard bindings (KF1); call ids
 distinct; references name existing calls of existing callables. -/
-theorem rename_output_graph (x a b : String) (ti : TypeInfo) (p : Program)
+theorem rename_output_graph_partial (x a b : String) (ti : TypeInfo) (p : Program)
     (hok : RenOutOK x a b ti p = true) :
     deepGraph (ti.renameOutput x a b) (renameOutput x a b p)
       = (deepGraph ti p).map (renNodeOut x a b) := by
@@ -291,13 +323,13 @@ theorem rename_output_whole_call_breaks :
     ∧ deepGraph (TypeInfo.empty.renameOutput "S" "o" "z") (renameOutput "S" "o" "z" prog)
         ≠ (deepGraph TypeInfo.empty prog).map (renNodeOut "S" "o" "z") := by decide
 
-/-- **remove_input_graph** (the deep form of `remove_input_only`).  Removing input
+/-- **remove_input_graph_partial** (the deep form of `remove_input_only`).  Removing input
 `q` of callable `x` (the parameter and the bindings named `q` of the calls of
 `x`) when nothing inside `x` refers to `self.q` leaves the resolved call graph
 unchanged except that the nodes of calls of `x` lose the key `q`: every
 remaining input of every call, at every depth of inlining, resolves to the same
 stage output / literal; outputs and retained references are unchanged. -/
-theorem remove_input_graph (x q : String) (ti : TypeInfo) (p : Program)
+theorem remove_input_graph_partial (x q : String) (ti : TypeInfo) (p : Program)
     (hok : RemInOK x q p = true) :
     deepGraph (ti.removeInput x q) (removeInputOne x q p) = (deepGraph ti p).map (remNodeIn x q) := by
   exact Proofs.RefactorGraph.remove_input_graph x q ti p hok
@@ -336,5 +368,183 @@ top-level binding); both steps satisfy the side condition; the graph changes. -/
 example : removeInputClosure exProg (closureFuel exProg) [("S", "a")] [] = [("S", "a"), ("P", "a")]
     ∧ RemInsOK [("S", "a"), ("P", "a")] exProg = true
     ∧ (deepGraph exTi exProg).map (remNodeIn "S" "a") ≠ deepGraph exTi exProg := by decide
+
+/-- **remove_input_closure_graph_derived_partial** — the full form of
+`remove_input_closure_graph_partial`: the side condition `RemInsOK` is DERIVED
+from the closure's own analysis (`leftoverInputs`).  On a structurally
+well-formed program (`StructOK`: what the compiler guarantees, independent of
+the edit) in which nothing inside `x` reads `self.q` (`seedOK`; vacuous for a
+stage), the whole edit `removeInput x q` — the parameter, the bindings of the
+calls of `x`, and the cascade of pipeline inputs that nothing binds any more —
+removes exactly those keys from the nodes of the resolved call graph and leaves
+every remaining resolved input, every output and retained reference unchanged. -/
+theorem remove_input_closure_graph_derived_partial (x q : String) (ti : TypeInfo) (p : Program)
+    (hx : (p.find? x).isSome = true) (hs : StructOK p = true) (hseed : seedOK x q p = true) :
+    deepGraph (ti.removeInputs (removeInputClosure p (closureFuel p) [(x, q)] [])) (removeInput x q p)
+      = (removeInputClosure p (closureFuel p) [(x, q)] []).foldl
+          (fun g xq => g.map (remNodeIn xq.1 xq.2)) (deepGraph ti p) :=
+  remove_input_closure_graph_partial x q ti p hx
+    (Proofs.RefactorGraph.closure_remInsOK p x q (closureFuel p) hs hseed)
+
+example : StructOK exProg = true ∧ seedOK "S" "a" exProg = true := by decide
+
+/-- **remove_calls_graph_partial.**  Deleting calls that nothing remaining refers to
+(`CallRemOK`: what `unusedCalls` establishes) leaves every remaining node of the
+resolved call graph exactly as it was — the graph after the deletion is the
+graph of the kept calls resolved in the ORIGINAL program (`deepGraphKeepAt`) —
+at every unfolding budget `(big, fuel)` (`deepGraph` is `deepGraphAt` at
+`graphFuel`, which the deletion lowers). -/
+theorem remove_calls_graph_partial (rem : List CallRemoval) (ti : TypeInfo) (p : Program)
+    (hok : CallRemOK rem p = true) (big fuel : Nat) :
+    deepGraphAt big fuel ti (applyCallRemovals rem p) = deepGraphKeepAt (keepOf rem) big fuel ti p := by
+  unfold deepGraphAt deepGraphKeepAt
+  have htop : (applyCallRemovals rem p).top = p.top := rfl
+  rw [htop]
+  cases ht : p.top with
+  | none => rfl
+  | some t => exact Proofs.RefactorGraph.remove_calls_nodes rem ti p hok big fuel t ht
+
+/-- `pipeline P2(in a, out r) { call S(a = self.a)  call T as U(a = S.o)  call S as V(a = U.o)
+return (r = S.o) }`: the call `V` is referenced by nothing. -/
+def exP2 : Callable := { exP with ret := [⟨"r", .ref ⟨.call, "S", ["o"]⟩⟩], retain := [] }
+def exProg3 : Program := ⟨[exS, exT, exP2], some ⟨"P", "P", "", [⟨"a", .lit "31"⟩], []⟩⟩
+
+example : CallRemOK [⟨"P", ["V"]⟩] exProg3 = true
+    ∧ (deepGraphAt 9 9 exTi (applyCallRemovals [⟨"P", ["V"]⟩] exProg3)).length = 3
+    ∧ (deepGraphAt 9 9 exTi exProg3).length = 4 := by decide
+
+/-- **remove_output_graph_partial** (the deep form of `remove_output_unused`).  Removing
+an output `o` of `x` that nothing refers to (`RemOutOK`: projected from no call
+of `x`, no call of `x` bound as a whole, `x` not used as a type, not the last
+output) — the parameter with its return binding / retain entry — leaves the
+resolved call graph unchanged except that the nodes of pipeline `x` lose the key
+`o` in their resolved output struct.  (The pipeline inputs that this leaves
+unbound are then removed by the cascade: `remove_input_closure_graph`.) -/
+theorem remove_output_graph_partial (x o : String) (ti : TypeInfo) (p : Program)
+    (hok : RemOutOK x o ti p = true) :
+    deepGraph (ti.removeOutput x o) (outStep x o p) = (deepGraph ti p).map (remNodeOut x o) :=
+  Proofs.RefactorGraph.remove_output_graph x o ti p hok
+
+/-- non-vacuity: stage `S2(in a, out o, out u)` whose output `u` nobody reads;
+pipeline `P` with a second output `w`. -/
+def exS2 : Callable := ⟨false, "S", false, ["a"], [("o", false), ("u", false)], [], [], [], []⟩
+def exP4 : Callable := { exP with outs := [("r", false), ("w", false)],
+                                  ret := exP.ret ++ [⟨"w", .ref ⟨.call, "U", ["o"]⟩⟩] }
+def exProg4 : Program := ⟨[exS2, exT, exP4], some ⟨"P", "P", "", [⟨"a", .lit "31"⟩], []⟩⟩
+
+example : RemOutOK "S" "u" exTi exProg4 = true ∧ RemOutOK "P" "w" exTi exProg4 = true
+    ∧ (deepGraph exTi exProg4).map (remNodeOut "P" "w") ≠ deepGraph exTi exProg4 := by decide
+
+/-- **remove_unused_calls_pass_graph_partial.**  One pass of `RemoveAllUnusedCalls` (delete
+the calls selected by `unusedCalls`, then remove the pipeline inputs this leaves
+unbound with their cascade) on a structurally well-formed program: the graph
+after the pass is the graph of the kept calls, resolved in the program BEFORE
+the pass, minus the removed input keys.  No side condition about the edit is
+assumed: that the deleted calls are unreferenced, that every cascaded input is
+unreferenced when it is removed, and that the seeds of the cascade are, are
+derived from `unusedCalls`, `leftoverInputs` and `unboundInputs`. -/
+theorem remove_unused_calls_pass_graph_partial (p : Program) (ti : TypeInfo) (hs : StructOK p = true)
+    (big fuel : Nat) :
+    deepGraphAt big fuel (ti.removeInputs (unusedCallPlan p).2)
+        (removeInputs (unusedCallPlan p).2 (applyCallRemovals (unusedCallPlan p).1 p))
+      = (unusedCallPlan p).2.foldl (fun g xq => g.map (remNodeIn xq.1 xq.2))
+          (deepGraphKeepAt (keepOf (unusedCallPlan p).1) big fuel ti p) :=
+  Proofs.RefactorGraph.calls_pass_graph p ti hs big fuel
+
+/-- **remove_unused_calls_loop_graph_partial** — the remove-unused fixed point at the level
+of the resolved call graph, in the remove-unused-calls mode of `mro edit` (no
+`-top-calls`): after the loop, every node is a node of the original graph with
+the same fqid, callable, resolved outputs and retained references, and with
+resolved inputs that are a sub-list of the original ones (`GraphLe`) — for every
+number of iterations and every unfolding budget.
+PARTIAL with respect to the full loop: with `-top-calls` the loop also removes
+unused pipeline OUTPUTS; each such removal is covered by `remove_output_graph`
+under its decidable hypothesis `RemOutOK`, which is not derived from the
+`unusedOutputs` reachability analysis. -/
+theorem remove_unused_calls_loop_graph_partial (p0 p : Program) (ti : TypeInfo) (n big fuel : Nat)
+    (hs : StructOK p = true) :
+    ∃ ti', Proofs.RefactorGraph.GraphLe (deepGraphAt big fuel ti' (removeLoop p0 true [] n p))
+      (deepGraphAt big fuel ti p) :=
+  Proofs.RefactorGraph.remove_calls_loop_graph p0 big fuel n p ti hs
+
+example : StructOK exProg3 = true ∧ (unusedCallPlan exProg3).1 = [⟨"P", ["V"]⟩]
+    ∧ removeUnused true [] exProg3 ≠ exProg3 := by decide
+
+/-- **remove_output_edit_graph_partial** — the whole edit `removeOutput x o` on an output
+that nothing refers to (`outputUnreferenced`, `RemOutOK`) of a structurally
+well-formed program: the parameter with its return binding / retain entry, then
+the cascade of the pipeline inputs this leaves unbound (`roPairs`: the closure
+that `RemoveOutputParam` computes).  The nodes of pipeline `x` lose the key `o`
+of their resolved output struct, the nodes of the callables whose inputs were
+cascaded away lose those keys, and nothing else in the resolved call graph
+changes.  The cascade's side conditions are derived from `unboundInputs` and
+`leftoverInputs`. -/
+theorem remove_output_edit_graph_partial (x o : String) (ti : TypeInfo) (p : Program)
+    (hun : outputUnreferenced x o p = true) (hok : RemOutOK x o ti p = true) (hs : StructOK p = true) :
+    deepGraph ((ti.removeOutput x o).removeInputs (Proofs.RefactorGraph.roPairs x o p)) (removeOutput x o p)
+      = (Proofs.RefactorGraph.roPairs x o p).foldl (fun g xq => g.map (remNodeIn xq.1 xq.2))
+          ((deepGraph ti p).map (remNodeOut x o)) := by
+  rw [remove_output_unused p x o hun]
+  exact Proofs.RefactorGraph.remove_output_plain_graph x o ti p hok hs
+
+example : outputUnreferenced "P" "w" exProg4 = true ∧ StructOK exProg4 = true
+    ∧ removeOutput "P" "w" exProg4 ≠ exProg4 := by decide
+
+/-! ### non-vacuity on a program with real inlining
+
+    struct PT(int a, int b)
+    stage A(in int a, out PT pt)            stage B(in int v, in PT q, out int o)
+    pipeline Q(in int a, out PT r, out int z) { call A(a = self.a)  return (r = A.pt, z = 7) }
+    pipeline P(in int a, out int w) {
+        call Q(a = self.a)
+        call B(v = Q.r.b, q = Q.r)                          -- projection through Q's return binding
+        call B as B2(v = Q.z, q = {a: 1, b: Q.z, c: 3})     -- literal inlined; struct narrowed to PT
+        return (w = B.o) }
+    call P(a = 5)
+
+Five nodes on three levels; `P.B.v` resolves through the sub-pipeline's return
+binding to the stage output `P.Q.A.pt.b`; `P.B2.q` is narrowed to the members of
+`PT` with `b` resolved to the literal that `Q` returns. -/
+def dA : Callable := ⟨false, "A", false, ["a"], [("pt", false)], [], [], [], []⟩
+def dB : Callable := ⟨false, "B", false, ["v", "q"], [("o", false)], [], [], [], []⟩
+def dQ : Callable :=
+  ⟨true, "Q", false, ["a"], [("r", false), ("z", false)], [],
+   [⟨"A", "A", "", [⟨"a", .ref ⟨.self, "a", []⟩⟩], []⟩],
+   [⟨"r", .ref ⟨.call, "A", ["pt"]⟩⟩, ⟨"z", .lit "37"⟩], []⟩
+def dP : Callable :=
+  ⟨true, "P", false, ["a"], [("w", false)], [],
+   [⟨"Q", "Q", "", [⟨"a", .ref ⟨.self, "a", []⟩⟩], []⟩,
+    ⟨"B", "B", "", [⟨"v", .ref ⟨.call, "Q", ["r", "b"]⟩⟩, ⟨"q", .ref ⟨.call, "Q", ["r"]⟩⟩], []⟩,
+    ⟨"B2", "B", "", [⟨"v", .ref ⟨.call, "Q", ["z"]⟩⟩,
+       ⟨"q", .map true (.cons "a" (.lit "31") (.cons "b" (.ref ⟨.call, "Q", ["z"]⟩) (.cons "c" (.lit "33") .nil)))⟩], []⟩],
+   [⟨"w", .ref ⟨.call, "B", ["o"]⟩⟩], []⟩
+def exDeep : Program := ⟨[dA, dB, dQ, dP], some ⟨"P", "P", "", [⟨"a", .lit "35"⟩], []⟩⟩
+def tInt : Ty := ⟨"int", 0, 0⟩
+def tPT : Ty := ⟨"PT", 0, 0⟩
+def exDeepTi : TypeInfo :=
+  ⟨[("PT", [("a", tInt), ("b", tInt)])],
+   [("A", [("a", tInt)]), ("B", [("v", tInt), ("q", tPT)]), ("Q", [("a", tInt)]), ("P", [("a", tInt)])],
+   [("A", [("pt", tPT)]), ("B", [("o", tInt)]), ("Q", [("r", tPT), ("z", tInt)]), ("P", [("w", tInt)])]⟩
+
+/-- the deep graph of `exDeep` really inlines, projects and narrows -/
+example :
+    (deepGraph exDeepTi exDeep).map (·.fqid) = [["P"], ["P", "Q"], ["P", "Q", "A"], ["P", "B"], ["P", "B2"]]
+    ∧ ((deepGraph exDeepTi exDeep).find? (·.fqid == ["P", "B"])).map (·.inputs)
+        = some [("v", .sref ["P", "Q", "A"] "A" ["pt", "b"]), ("q", .sref ["P", "Q", "A"] "A" ["pt"])]
+    ∧ ((deepGraph exDeepTi exDeep).find? (·.fqid == ["P", "B2"])).map (·.inputs)
+        = some [("v", .lit "37"), ("q", .map true (.cons "a" (.lit "31") (.cons "b" (.lit "37") .nil)))] := by
+  decide
+
+/-- every side condition of the call-graph theorems holds on it: inputs and outputs of
+the sub-pipeline and of the stage behind it, the callable (on the id-erased program),
+the removals; and the edits change the graph -/
+example :
+    RenInOK "Q" "a" "n" exDeepTi exDeep = true ∧ RenInOK "A" "a" "n" exDeepTi exDeep = true
+    ∧ RenOutOK "Q" "r" "rr" exDeepTi exDeep = true ∧ RenOutOK "A" "pt" "pp" exDeepTi exDeep = true
+    ∧ RenCallOK "A" "AA" exDeepTi (eraseIds exDeep) = true ∧ WF exDeep = true ∧ FreshFor "A" "AA" exDeep = true
+    ∧ StructOK exDeep = true ∧ seedOK "B" "v" exDeep = true ∧ RemOutOK "Q" "z" exDeepTi exDeep = false
+    ∧ (deepGraph exDeepTi exDeep).map (renNodeOut "A" "pt" "pp") ≠ deepGraph exDeepTi exDeep
+    ∧ (deepGraph exDeepTi exDeep).map (renNodeOut "Q" "r" "rr") ≠ deepGraph exDeepTi exDeep := by
+  decide
 
 end Props.C19
